@@ -77,7 +77,7 @@ def cases(draw):
     mc = draw(st.one_of(st.none(), st.none(), st.integers(1, n + 1)))
     # parallel default config = all_successful; map default = empty config
     eff = norm_cfg(comp) if comp is not None else ({"min": None, "tol": None, "pct": None} if is_map else {"min": None, "tol": 0, "pct": 0})
-    kinds = [draw(st.sampled_from(["ok", "ok", "ok", "fail", "fail", "slow_ok", "slow_ok", "slow_fail", "suspend", "nap", "block", "big_ok"])) for _ in range(n)]
+    kinds = [draw(st.sampled_from(["ok", "ok", "ok", "fail", "fail", "slow_ok", "slow_ok", "slow_fail", "suspend", "nap", "block", "big_ok", "nested"])) for _ in range(n)]
     if n >= 2 and draw(st.integers(0, 5)) == 0:
         # all workers busy with slow branches at the instant a timer-parked branch is resumed inside the invocation
         mc = draw(st.integers(1, n - 1))
@@ -99,7 +99,17 @@ def cases(draw):
     for i, k in enumerate(kinds):
         v = to_tagged(draw(G.json_values))
         msg = f"err-{i}"
-        if k == "big_ok":
+        if k == "nested":
+            # the branch function returns the BatchResult of an inner map/parallel itself (stmt-level "unwrap")
+            inner = draw(st.sampled_from([
+                {"op": "parallel", "branches": [[{"op": "step", "beh": {"kind": "ret", "v": v}, "sem": "least", "retry": {"kind": "none"}}],
+                                                [{"op": "step", "beh": {"kind": "always_fail", "err": "UserError", "msg": "inner"}, "sem": "least", "retry": {"kind": "none"}}]],
+                 "cfg": {"completion": {"min": None, "tol": 2, "pct": None}}},
+                {"op": "map", "items": [to_tagged(1), to_tagged(2)], "body": [{"op": "step", "beh": {"kind": "ret", "v": v}, "sem": "least", "retry": {"kind": "none"}}],
+                 "cfg": {"completion": {"min": None, "tol": 2, "pct": None}}}]))
+            b = [inner]
+            truth.append(("nested", None))
+        elif k == "big_ok":
             # the branch's own result is larger than the (test-side patched) checkpoint limit
             b = [{"op": "step", "beh": {"kind": "big", "n": 700, "ch": "z"}, "sem": "least", "retry": {"kind": "none"}}]
             truth.append(("ok", "z" * 700))
@@ -136,6 +146,8 @@ def cases(draw):
         stmt = {"op": "map", "items": [to_tagged(i) for i in range(n)], "body": body, "cfg": cfg}
     else:
         stmt = {"op": "parallel", "branches": branches, "cfg": cfg}
+    if "nested" in kinds:
+        stmt["unwrap"] = True
     body = [stmt, {"op": "open", "gate": "g"}, {"op": "wait", "secs": 2}]
     wrap = draw(st.sampled_from(["root", "root", "child"]))
     if wrap == "child":
@@ -146,6 +158,13 @@ def cases(draw):
         "line": draw(st.sampled_from([[], [], [], ["executor", "models"]])),
         **({"limits": {"checkpoint": 600}} if "big_ok" in kinds else {}),
     }
+
+
+def _unwrapped(case):
+    for _, s_ in G.program_paths(case["prog"]):
+        if s_["op"] in ("map", "parallel") and s_.get("unwrap"):
+            return True
+    return False
 
 
 def mon_c09(run, case):
@@ -177,6 +196,8 @@ def mon_c09(run, case):
                 if stv == "SUCCEEDED":
                     succ += 1
                     want = [from_tagged(tv)] if kind in ("ok",) else None
+                    if kind == "ok" and case["prog"] and _unwrapped(case):
+                        want = want[0]
                     if kind == "ok" and not teq(it.result, want):
                         run.v("C09", "item_result_wrong", "SUCCEEDED", f"{path}[{it.index}]: result {it.result!r}, branch returned {want!r}")
                     if kind == "fail":
